@@ -11,6 +11,7 @@ package simrt
 import (
 	"fmt"
 	"hash/fnv"
+	"runtime"
 	"runtime/debug"
 	"sort"
 	"strings"
@@ -116,6 +117,7 @@ var S *Sim
 
 // New creates a simulation bound to tape. Must be called inside a synctest bubble.
 func New(tape *Tape) *Sim {
+	ResetPools()
 	s := &Sim{
 		Tape:       tape,
 		parkedCh:   make(chan struct{}, 1),
@@ -548,6 +550,20 @@ func Go(f func()) {
 		select {}
 	}
 	s.Spawn("go", f)
+}
+
+// Procs is what rewritten code sees as runtime.GOMAXPROCS(-1) (pool sizes); a per-run knob.
+var Procs = 2
+
+// GOMAXPROCS stands in for runtime.GOMAXPROCS in the packages under test.
+func GOMAXPROCS(n int) int {
+	if n > 0 {
+		return runtime.GOMAXPROCS(n)
+	}
+	if S == nil || S.cur == nil {
+		return runtime.GOMAXPROCS(n)
+	}
+	return Procs
 }
 
 // Tok identifies the task that entered a really-blocking operation.
